@@ -7,7 +7,7 @@ from hypothesis import strategies as st
 from ECAgent.Core import Model, System
 from ECAgent.Collectors import Collector
 from vf.engine import Violation, InvalidCase
-from vf.fixtures import check, expect_raises, sized_lists, wone_of
+from vf.fixtures import check, expect_raises, sized_lists, near_pow2, wone_of
 
 PROPERTY = "C02"
 BUDGET = {"quick": 1600, "thorough": 5000}
@@ -71,7 +71,7 @@ def runs(s, t):
 def play(case, expand):
     model = Model()
     log = []
-    specs = case["systems"][:6]
+    specs = case["systems"][:80]
     for s in specs:
         if int(s["freq"]) < 1:
             raise InvalidCase("frequency")
@@ -164,7 +164,7 @@ def play(case, expand):
         elif kind == "exec_systems":
             one_step(lambda: model.systems.execute_systems())
         elif kind == "stepn":
-            n = max(1, min(int(op["n"]), 6))
+            n = max(1, min(int(op["n"]), 400))
             if expand:
                 for _ in range(n):
                     one_step(lambda: model.execute())
@@ -203,7 +203,7 @@ def run_case(case):
     regs = sorted(max(0, int(s.get("reg_at", 0))) for s in specs)
     for op in case["script"]:
         if op["op"] == "stepn":
-            n = max(1, min(int(op["n"]), 6))
+            n = max(1, min(int(op["n"]), 400))
             if any(t < r < t + n for r in regs):
                 comparable = False
             t += n
@@ -228,6 +228,10 @@ def run_case(case):
         labels.append("invalid-request")
     if case.get("spawn"):
         labels.append("mid-timestep-registration")
+    if any(o["op"] == "stepn" and int(o["n"]) > 64 for o in case["script"]):
+        labels.append("execute(n>64)")
+    if len(specs) > 16:
+        labels.append("systems>16")
     if any(o["op"] == "stepn" for o in case["script"]):
         labels.append("multi-step" + ("" if comparable else "-uncompared"))
     return {"nontrivial": nontrivial, "labels": labels}
@@ -245,10 +249,16 @@ def strategy(tier):
                    st.builds(lambda n: {"op": "stepn", "n": n}, st.integers(1, 5)),
                    st.builds(lambda n: {"op": "stepn", "n": n}, st.integers(2, 5)),
                    st.builds(lambda n: {"op": "bad", "n": n}, st.sampled_from(sorted(BAD))))
+    bign = st.builds(lambda n: {"op": "stepn", "n": n}, near_pow2(15, 260))
+    long_script = st.builds(lambda a, b, c: a + [b] + c, sized_lists(op, 0, 4), bign, sized_lists(op, 0, 4))
+    many = st.lists(system(), min_size=17, max_size=70)
     spawn = st.one_of(st.none(), st.none(), st.fixed_dictionaries({"at": st.integers(0, 8), "prio": st.sampled_from([-1, 0, 1, 1]),
                                                                    "spec": system()}))
-    return st.fixed_dictionaries({"systems": st.lists(system(), min_size=1, max_size=5), "script": sized_lists(op, 1, 25),
-                                  "spawn": spawn})
+    small = st.fixed_dictionaries({"systems": st.lists(system(), min_size=1, max_size=5), "script": sized_lists(op, 1, 25),
+                                   "spawn": spawn})
+    long_call = st.fixed_dictionaries({"systems": st.lists(system(), min_size=1, max_size=4), "script": long_script, "spawn": st.none()})
+    crowded = st.fixed_dictionaries({"systems": many, "script": sized_lists(op, 3, 12), "spawn": spawn})
+    return wone_of(*([small] * 12 + [long_call, long_call, crowded]))
 
 
 def exhaustive(tier):
